@@ -2372,6 +2372,19 @@ class Parameters:
         else:
             subparams, callback, what = self_._resolve_dynamic_deps(
                 obj, dynamic_dep, param_dep, attribute)
+            # Several dependencies can pass through the same sub-object:
+            # a replaced sub-object must be compared on all of their sub-paths.
+            for ddep, pdep in group[1:]:
+                if ddep is None:
+                    continue
+                sp, cb, _ = self_._resolve_dynamic_deps(obj, ddep, pdep, attribute)
+                if sp is None or subparams is None:
+                    # a dependency on a parameter of dep_obj itself is in the
+                    # group: its events can never be skipped
+                    subparams = None
+                else:
+                    subparams = subparams + [p for p in sp if p not in subparams]
+                callback = callback or cb
 
         mcaller = _m_caller(obj, name, what, subparams, callback)
         return dep_obj.param._watch(
